@@ -180,7 +180,9 @@ def execute(case):
                 for step in case['program']['steps']:
                     if step['ret'][0] == 'kill':
                         texts.add('' if step['ret'][1] == '__nomsg__' else (step['ret'][1] or ''))
-                if msg[0] == 'ok' and (text or '') not in texts:
+                if msg[0] == 'ok' and not isinstance(text or '', str):
+                    v('killed-text', f'killed_msg text is not a text but {text!r}')
+                elif msg[0] == 'ok' and (text or '') not in texts:
                     v('killed-text', f'killed_msg text {text!r} not among issued {sorted(texts)}')
             # listeners: exactly one terminal notification, of the matching kind
             if term_notes != [TERMINAL_NOTES[final]]:
